@@ -88,7 +88,7 @@ func stackConfigs(rng *rand.Rand, t *TopoSpec) []StackCfg {
 
 	ed := base
 	ed.Label, ed.Mode = "enforce-default", "enforce"
-	if dnssecKind(t.Kind) || (t.Signed && rng.IntN(3) == 0) {
+	if dnssecKind(t.Kind) || (t.Signed && rng.IntN(2) == 0) {
 		// constrain ONE DNSSEC dimension (the others keep their defaults, so
 		// that its crossing is not masked by another one that comes first);
 		// the kind built to stress a dimension mostly gets that dimension
@@ -110,7 +110,7 @@ func stackConfigs(rng *rand.Rand, t *TopoSpec) []StackCfg {
 		}
 		switch dim {
 		case "sigs":
-			ed.MaxSigs = pick(rng, uint32(1), 2, 4, 8)
+			ed.MaxSigs = pick(rng, uint32(1), 2, 3)
 		case "ds":
 			ed.MaxDS = pick(rng, uint32(1), 2, 4)
 		case "n3":
